@@ -23,10 +23,13 @@ package metric
 //@ pred v2TempValuesOK(m *Temporal) := v2TempValues(m) && valid_v2_E(m.E) && valid_v2_RL(m.RL) && valid_v2_RC(m.RC)
 //@ pred v2TemporalKnown(m *Temporal) := m != nil && v2BaseKnown(m.Base) && (v2TempEmpty(m) || v2TempValues(m))
 
+//@ pred v2TemporalOK(m *Temporal) := m != nil && v2BaseOK(m.Base) && (v2TempEmpty(m) || v2TempValuesOK(m))
+
 //@ pred v2EnvEmpty(m *Environmental) := !m.names["CDP"] && !m.names["TD"] && !m.names["CR"] && !m.names["IR"] && !m.names["AR"]
 //@ pred v2EnvValues(m *Environmental) := m.CDP != CollateralDamagePotentialInvalid && m.TD != TargetDistributionInvalid
 //@      && m.CR != ConfidentialityRequirementInvalid && m.IR != IntegrityRequirementInvalid && m.AR != AvailabilityRequirementInvalid
 //@ pred v2EnvValuesOK(m *Environmental) := v2EnvValues(m) && valid_v2_CDP(m.CDP) && valid_v2_TD(m.TD) && valid_v2_CR(m.CR) && valid_v2_IR(m.IR) && valid_v2_AR(m.AR)
+//@ pred v2EnvOK(m *Environmental) := m != nil && v2TemporalOK(m.Temporal) && (v2EnvEmpty(m) || v2EnvValuesOK(m))
 //@ pred v2EnvKnown(m *Environmental) := m != nil && v2TemporalKnown(m.Temporal) && (v2EnvEmpty(m) || v2EnvValues(m))
 
 // ---------------------------------------------------------------------------------------------------------------
@@ -71,6 +74,7 @@ package metric
 //@   grid 0 100
 //@   ensures[C12] !v2TemporalKnown(m) ==> result === 0.0
 //@   ensures[C04t,grid] m != nil && v2BaseOK(m.Base) && !v2TempEmpty(m) && v2TempValuesOK(m) ==> near1(result, v2_temporal_x(kb, m.E, m.RL, m.RC)) && result >= 0.0 && result <= tenth(kb)
+//@   ensures[C04t,C13] m != nil && v2BaseOK(m.Base) && !v2TempEmpty(m) && v2TempValuesOK(m) ==> (m.E == ExploitabilityNotDefined && m.RL == RemediationLevelNotDefined && m.RC == ReportConfidenceNotDefined ==> result == tenth(kb))
 //@   ensures[C04e,grid] m != nil && v2BaseOK(m.Base) && v2TempEmpty(m) ==> result == tenth(kb)
 //@   family temporal[C04t,grid] when m != nil && v2BaseOK(m.Base) && !v2TempEmpty(m) && v2TempValuesOK(m): m.E in v2.E, m.RL in v2.RL, m.RC in v2.RC ; replace Base.Score#0 grid 0 100 pm0 as kb
 //@   family empty[C04e,grid] when m != nil && v2BaseOK(m.Base) && v2TempEmpty(m): ; replace Base.Score#0 grid 0 100 pm0 as kb
@@ -100,13 +104,18 @@ package metric
 //@   grid -20 100
 //@   ensures[C12] !v2EnvKnown(m) ==> result === 0.0
 //@   ensures[C05adj] m != nil && v2BaseOK(m.Base) && !v2EnvEmpty(m) && v2EnvValuesOK(m) ==> true
+//@   ensures[C05adjgrid] m != nil && v2BaseOK(m.Base) && !v2EnvEmpty(m) && v2EnvValuesOK(m) ==> true
 //@   ensures[C05tmp] m != nil && v2BaseOK(m.Base) && !v2EnvEmpty(m) && v2EnvValuesOK(m) && !v2TempEmpty(m.Temporal) && v2TempValuesOK(m.Temporal) ==> true
 //@   ensures[C05fin,grid] m != nil && v2BaseOK(m.Base) && !v2EnvEmpty(m) && v2EnvValuesOK(m) && !v2TempEmpty(m.Temporal) && v2TempValuesOK(m.Temporal) ==> near1(result, v2_env_x(kt, m.CDP, m.TD)) && result >= 0.0 - 2.0 && result <= 10.0
+//@   ensures[C05fin,C13] m != nil && v2BaseOK(m.Base) && !v2EnvEmpty(m) && v2EnvValuesOK(m) && !v2TempEmpty(m.Temporal) && v2TempValuesOK(m.Temporal) ==> (m.TD == TargetDistributionNon ==> result == 0.0)
+//@   ensures[C05fin0,C13] m != nil && v2BaseOK(m.Base) && !v2EnvEmpty(m) && v2EnvValuesOK(m) && v2TempEmpty(m.Temporal) ==> (m.TD == TargetDistributionNon ==> result == 0.0)
 //@   ensures[C05fin0,grid] m != nil && v2BaseOK(m.Base) && !v2EnvEmpty(m) && v2EnvValuesOK(m) && v2TempEmpty(m.Temporal) ==> near1(result, v2_env_x(kab, m.CDP, m.TD)) && result >= 0.0 - 2.0 && result <= 10.0
 //@   ensures[C05none,grid] m != nil && v2BaseOK(m.Base) && v2EnvEmpty(m) && !v2TempEmpty(m.Temporal) && v2TempValuesOK(m.Temporal) ==> near1(result, v2_temporal_x(kb, m.E, m.RL, m.RC)) && result >= 0.0 && result <= 10.0
 //@   ensures[C05none0,grid] m != nil && v2BaseOK(m.Base) && v2EnvEmpty(m) && v2TempEmpty(m.Temporal) ==> result == tenth(kb)
 //@   family adjbase[C05adj] when m != nil && v2BaseOK(m.Base) && !v2EnvEmpty(m) && v2EnvValuesOK(m): m.AV in v2.AV, m.AC in v2.AC, m.Au in v2.Au, m.C in v2.C, m.I in v2.I, m.A in v2.A, m.CR in v2.CR, m.IR in v2.IR, m.AR in v2.AR
-//@        ; stop Base.score#0 sat near1(cutval, v2_adjbase_x(m.AV, m.AC, m.Au, m.C, m.I, m.A, m.CR, m.IR, m.AR)) && cutval >= 0.0 - 2.0 && cutval <= 10.0
+//@        ; stop Base.score#0 sat near1(cutval, v2_adjbase_x(m.AV, m.AC, m.Au, m.C, m.I, m.A, m.CR, m.IR, m.AR))
+//@   family adjgrid[C05adjgrid,grid] when m != nil && v2BaseOK(m.Base) && !v2EnvEmpty(m) && v2EnvValuesOK(m): m.AV in v2.AV, m.AC in v2.AC, m.Au in v2.Au, m.C in v2.C, m.I in v2.I, m.A in v2.A, m.CR in v2.CR, m.IR in v2.IR, m.AR in v2.AR
+//@        ; stop Base.score#0 sat ongrid(cutval, 0 - 20, 100)
 //@   family adjtemp[C05tmp] when m != nil && v2BaseOK(m.Base) && !v2EnvEmpty(m) && v2EnvValuesOK(m) && !v2TempEmpty(m.Temporal) && v2TempValuesOK(m.Temporal): m.E in v2.E, m.RL in v2.RL, m.RC in v2.RC
 //@        ; replace Base.score#0 grid -20 100 pm0 as kab ; stop Temporal.score#0 sat near1(cutval, v2_temporal_x(kab, m.E, m.RL, m.RC)) && cutval >= 0.0 - 2.0 && cutval <= 10.0
 //@   family final[C05fin,grid] when m != nil && v2BaseOK(m.Base) && !v2EnvEmpty(m) && v2EnvValuesOK(m) && !v2TempEmpty(m.Temporal) && v2TempValuesOK(m.Temporal): m.CDP in v2.CDP, m.TD in v2.TD
@@ -116,3 +125,41 @@ package metric
 //@   family none[C05none,grid] when m != nil && v2BaseOK(m.Base) && v2EnvEmpty(m) && !v2TempEmpty(m.Temporal) && v2TempValuesOK(m.Temporal): m.E in v2.E, m.RL in v2.RL, m.RC in v2.RC
 //@        ; replace Base.Score#0 grid 0 100 pm0 as kb
 //@   family none0[C05none0,grid] when m != nil && v2BaseOK(m.Base) && v2EnvEmpty(m) && v2TempEmpty(m.Temporal): ; replace Base.Score#0 grid 0 100 pm0 as kb
+
+// ---------------------------------------------------------------------------------------------------------------
+// severity (C06): v2 rating bands Low 0.0-3.9, Medium 4.0-6.9, High 7.0-10.0; negative scores (C05's exception) unspecified
+
+//@ func severity(score float64) Severity
+//@   modifies nothing
+//@   ensures[C06] score >= 0.0 && score < 4.0 ==> result == SeverityLow
+//@   ensures[C06] score >= 4.0 && score < 7.0 ==> result == SeverityMedium
+//@   ensures[C06] score >= 7.0 ==> result == SeverityHigh
+
+//@ func (sv Severity) String() string
+//@   modifies nothing
+//@   ensures[C06] sv == SeverityLow ==> result == "Low"
+//@   ensures[C06] sv == SeverityMedium ==> result == "Medium"
+//@   ensures[C06] sv == SeverityHigh ==> result == "High"
+//@   ensures[C06] sv < SeverityLow || sv > SeverityHigh ==> result == "Unknown"
+
+// ks: ghost integer with <level>.Score() == tenth(ks)
+//@ func (m *Base) Severity() Severity
+//@   requires m == nil || inv_v2Base(m)
+//@   modifies nothing
+//@   ensures[C12] !v2BaseKnown(m) ==> result == SeverityLow
+//@   ensures[C06s] v2BaseOK(m) ==> result == v2_sev_of_k(ks)
+//@   family sev[C06s] when v2BaseOK(m): ; replace Base.Score#0 grid 0 100 pm0 as ks
+
+//@ func (m *Temporal) Severity() Severity
+//@   requires m == nil || inv_v2Temporal(m)
+//@   modifies nothing
+//@   ensures[C12] !v2TemporalKnown(m) ==> result == SeverityLow
+//@   ensures[C06s] v2TemporalOK(m) ==> result == v2_sev_of_k(ks)
+//@   family sev[C06s] when v2TemporalOK(m): ; replace Temporal.Score#0 grid 0 100 pm0 as ks
+
+//@ func (m *Environmental) Severity() Severity
+//@   requires m == nil || inv_v2Env(m)
+//@   modifies nothing
+//@   ensures[C12] !v2EnvKnown(m) ==> result == SeverityLow
+//@   ensures[C06s] v2EnvOK(m) ==> (ks >= 0 ==> result == v2_sev_of_k(ks))
+//@   family sev[C06s] when v2EnvOK(m): ; replace Environmental.Score#0 grid -20 100 pm0 as ks
